@@ -6,12 +6,80 @@ ROOT = os.path.dirname(os.path.dirname(os.path.abspath(__file__)))
 
 CHECKS = {
  # id: (technique, level text, level note, design_ref)
+ "C01": ("reference-model oracle: real parser vs an independent denotational evaluator of the tag language on generated grammar programs x token strings x lookahead x trailing x case-insensitivity",
+         "Differential runtime monitoring against an executable reference semantics; every generated grammar is compiled against the current tree and every case compares error nil-ness and every captured field. Held on the executions counted in the evidence.",
+         "Trusted: the reference evaluator (gram/eval.go, written from the README and the property text), Go's strconv; generated grammars exclude the library's own 'grammar bug' constructs; unspecified corners are counted, not judged.",
+         "DESIGN.md 3.1, 4 C01"),
+ "C02": ("reference-model oracle on successful parses, generator biased to capture-then-fail-then-other-path histories; fields never written on the accepted path must be zero",
+         "Same engine as C01 with a generator aimed at abandoned attempts that had already captured (incl. completed / failed nested productions, inside ?,*,+,~ and lookahead groups).",
+         "Trusted: as C01. Accept/reject disagreements are left to C01.",
+         "DESIGN.md 4 C02"),
+ "C03": ("reference-model oracle: real stateful lexer vs an independent reference lexer on generated rule maps x walked/damaged inputs",
+         "Token stream (rule name, text, offset) or error position compared with an independent implementation of the documented rules.",
+         "Trusted: Go's regexp and regexp.QuoteMeta (used by both sides); pop/return on the initial state is outside the definition and only compared up to that point.",
+         "DESIGN.md 3.2.3, 4 C03"),
+ "C04": ("invariant oracle computed from the input text alone (value = input bytes at offset, ordering, EOF, line/column, filename, concatenation) over stateful, simple and every text/scanner constructor",
+         "No reference lexer involved: positions and values are re-derived from the input bytes. Generated Go lexers get the same oracle inside the C05 check.",
+         "Trusted: the 20-line position oracle (LineCol). Only successful lexing is judged.",
+         "DESIGN.md 3.2.5, 4 C04"),
+ "C06": ("panic / watchdog / Trace-depth monitors plus an error well-formedness oracle over generated grammars and the repository's example grammars on arbitrary, mutated and synthesised inputs",
+         "Totality and error-object invariants checked on every call; recursion depth measured through the Trace option on flat and nested input families.",
+         "Trusted: Parser.Lex as the source of the token at an error position; Trace does not change results (C15). User-code examples only get the panic-free/AST-nil rules.",
+         "DESIGN.md 3.4, 4 C06"),
+ "C07": ("panic monitor, progress bound and EOF-idempotence monitor over hostile generated rule maps, one Next call at a time",
+         "Totality/progress monitors on every Next call incl. calls after EOF and after an error.",
+         "Trusted: process watchdog + isolated re-run for non-termination of a single Next.",
+         "DESIGN.md 4 C07"),
+ "C08": ("oracle = own left-edge/nullability analysis of the grammar IR vs Build's verdict, plus a Trace-based recursion-depth monitor on accepted grammars; systematic placement templates + random grammars",
+         "Build's accept/reject compared with an independent analysis on >1000 placements of the cycle-closing reference; accepted grammars are parsed under a logical depth bound.",
+         "Trusted: gram.Analysis (nullable fixpoint + left-edge reachability).",
+         "DESIGN.md 4 C08"),
+ "C09": ("Go race detector + per-operation equality with fresh-instance sequential results under a barrier-released multi-goroutine workload",
+         "Race detector (happens-before) over concurrent Parse*/Lex/String/LexString on shared parsers, the ebnf package parser, example parsers and a per-round back-reference definition; results compared with isolated fresh instances; history independence re-checked sequentially.",
+         "Trusted: the Go race detector; absence of reports covers only the executed interleavings. porcupine is not used: every operation is a pure function of its arguments, so linearizability degenerates to per-operation equality.",
+         "DESIGN.md 3.5, 4 C09"),
+ "C10": ("metamorphic relation: identical accept/reject and captured fields across re-spacings/re-commentings with equal non-elided token sequences; reference leaf rule for grammars naming elided types",
+         "Metamorphic runtime check over 8-14 renderings x 6 lookahead values per token string.",
+         "Trusted: Parser.Lex to confirm the renderings really have equal non-elided sequences; the reference evaluator for the second half.",
+         "DESIGN.md 4 C10"),
+ "C11": ("structural invariants of Pos/EndPos/Tokens against Parser.Lex output plus exact runs from the reference derivation",
+         "Model-free invariants (contiguity, nesting, sibling disjointness, Pos/EndPos) and model-based equality with the reference derivation's consumed runs on every node of every successful parse.",
+         "Trusted: reference evaluator for the exact runs; the invariants need no model.",
+         "DESIGN.md 4 C11"),
  "C12": ("explicit executable model compared after every operation of random and exhaustively enumerated operation histories",
-         "Runtime comparison of the real PeekingLexer with an executable model on every observable after every operation; thorough additionally enumerates a small scope exhaustively. Held on the executions listed in the evidence, nothing more.",
+         "Runtime comparison of the real PeekingLexer with an executable model on every observable after every operation; thorough additionally enumerates a small scope exhaustively.",
          "Trusted: the 80-line model (peekmodel) as a faithful reading of the property's sentences; Go's == on lexer.Token.",
          "DESIGN.md 3.3, 4 C12"),
+ "C13": ("metamorphic monotonicity across nine lookahead values on the same input (success at k implies identical AST at every larger k)",
+         "Purely metamorphic: no reference semantics in the verdict.",
+         "Trusted: nothing beyond AST normalisation; exponential (grammar,input) pairs are skipped by a reference-cost guard.",
+         "DESIGN.md 4 C13"),
+ "C14": ("output validity + completeness counts + print/parse fixpoint of Parser.String() through the ebnf package on generated grammars",
+         "Every generated grammar's EBNF must parse, start with the root, define each referenced production once, carry exactly the IR's multiset of literals/references/operators, and survive print->parse->print.",
+         "Trusted: multiset comparison (not tree shape); named productions only.",
+         "DESIGN.md 4 C14"),
+ "C15": ("pairwise equality of (AST, error) across all entry points, recording Definition wrapper for the consumed token stream, reference semantics for the post-parse lexer position",
+         "Relational runtime check across ParseString/ParseBytes/Parse/ParseFromLexer/Trace/named-reader and Definition.Lex/LexString/LexBytes.",
+         "Trusted: the recording wrapper forwards to the wrapped definition's own methods; with mappers the consumed-stream comparison is skipped.",
+         "DESIGN.md 4 C15"),
+ "C16": ("metamorphic: lexer built from JSON round trip of definition / rules / def.Rules() must have equal Symbols() and equal token streams/errors",
+         "Behavioural equality after serialisation on generated rule maps with every action kind.",
+         "Trusted: equality judged on sampled inputs only.",
+         "DESIGN.md 4 C16"),
+ "C17": ("oracle = strconv.ParseInt/ParseUint/ParseFloat with the field's bit size over boundary tables of every numeric kind x template (scalar, named, pointer, slice, joined, elide, enclosing alternative)",
+         "Value-exact comparison with strconv, and error presence/position/message checks.",
+         "Trusted: strconv. []*numeric fields not claimed.",
+         "DESIGN.md 4 C17"),
+ "C18": ("oracle = strconv.Quote/CanBackquote inverse law for Unquote; token-by-token stream comparison for Upper; recorded call log for Map",
+         "Inverse-of-quoting law over generated strings in three quoting styles and two lexers; mapper selection/position invariants.",
+         "Trusted: strconv.Quote / CanBackquote.",
+         "DESIGN.md 4 C18"),
+ "C19": ("panic/hang monitor and exactly-one-of(parser,error) over reflect.StructOf struct types with soup tags, targeted malformed tags (must reject), valid corpus (must build) and exhaustive single-token edits",
+         "Totality of Build under mass generated struct types; negative classes named by the property must be rejected; generated valid grammars must build.",
+         "Trusted: reflect.StructOf + Union[any] as a faithful route into Build's parseType; named/recursive/embedded types reach Build through the compiled programs of the other checks.",
+         "DESIGN.md 4 C19"),
 }
-PENDING = {}
+PENDING = {"C05": "check under construction in this revision (generated-lexer differential check, DESIGN.md 4 C05); not claimed until it runs silent on the unchanged tree"}
 def load_pending():
     ids = [json.loads(l)["id"] for l in open(os.path.join(ROOT, "properties.jsonl"))]
     return [i for i in ids if i not in CHECKS]
